@@ -302,6 +302,50 @@ fn input_fault_group(rep: &Report, idx: usize, seed: u64) -> Option<String> {
     res.err()
 }
 
+/// The machine must not matter either: the same compress pinned to one CPU (what a small
+/// container or a single-core target looks like to the process: every "number of CPUs"
+/// default becomes 1) and unpinned, with chunks of several MiB — large enough for any
+/// per-chunk parallelism to kick in — must give the same bytes.
+fn cpu_count_group(rep: &Report, idx: usize, seed: u64) -> Option<String> {
+    use crate::refimpl::chunker::Cfg;
+    let mut rng = Rng::new(seed).fork(0x12c0 + idx as u64);
+    let dir = scn::case_dir("C12", 90_000 + idx);
+    let res = (|| -> Result<(), String> {
+        let n = rng.urange(4_300_000, 6_000_000);
+        let comp = [crate::gen::Comp::Brotli(1), crate::gen::Comp::Zstd(1), crate::gen::Comp::Brotli(2)][idx % 3];
+        let src_len = n * 2 + rng.urange(1, 500_000);
+        let source = crate::gen::gen_source(&mut rng, crate::gen::SrcClass::LowEntropy, src_len);
+        let spec = scn::CompressSpec::new(Cfg::fixed(n), comp, 64);
+        let mut archives: Vec<(String, Vec<u8>)> = Vec::new();
+        for (name, one_cpu, workers) in [("unpinned", None, None), ("pinned to one CPU", Some(idx), None), ("two worker threads", None, Some(2usize))] {
+            let (mut run, out_path) = scn::compress_run(&dir, "c", &source, &spec);
+            let _ = std::fs::remove_file(&out_path);
+            run.use_shim = false;
+            run.one_cpu = one_cpu;
+            run.workers = workers;
+            run.timeout = std::time::Duration::from_secs(300);
+            run.rlimit_cpu_s = Some(300);
+            let o = proc::run(&run);
+            rep.eval();
+            if !o.exit.ok() {
+                rep.inconclusive("cpu-count group: compress did not succeed");
+                return Ok(());
+            }
+            archives.push((name.to_string(), std::fs::read(&out_path).map_err(|e| e.to_string())?));
+        }
+        for a in &archives[1..] {
+            if a.1 != archives[0].1 {
+                return Err(format!("{} with chunks of {} bytes: the archive written {} differs from the one written {} (lengths {} vs {}, first difference at byte {:?})", comp.describe(), n, a.0, archives[0].0, a.1.len(), archives[0].1.len(), first_diff(&archives[0].1, &a.1)));
+            }
+        }
+        rep.count("cpu_count_groups_judged", 1);
+        rep.nontrivial(format!("cpus:{}:{}#{}", comp.describe(), n, idx));
+        Ok(())
+    })();
+    scn::cleanup(&dir, res.is_err());
+    res.err()
+}
+
 pub fn run(tier: Tier, seed: u64) -> i32 {
     let rep = Report::new("C12", "exploration", tier, seed);
     let groups = tier.pick(56, 420);
@@ -337,6 +381,15 @@ pub fn run(tier: Tier, seed: u64) -> i32 {
         for (i, r) in out {
             if let Some(why) = r {
                 rep.violation("c12/memory-pressure/archives differ", json!({"why": why}), json!({"engine": "memory", "idx": i, "seed": seed}));
+            }
+        }
+    }
+    {
+        let nc = tier.pick(3, 18);
+        let out = par_map(nc, 3, |i| (i, cpu_count_group(&rep, i, seed)));
+        for (i, r) in out {
+            if let Some(why) = r {
+                rep.violation("c12/cpu-count/archives differ", json!({"why": why}), json!({"engine": "cpus", "idx": i, "seed": seed}));
             }
         }
     }
@@ -406,6 +459,20 @@ pub fn replay(v: &Value) -> i32 {
     if r["engine"] == "memory" {
         let rep = Report::new("C12", "exploration", Tier::Quick, r["seed"].as_u64().unwrap_or(1));
         return match memory_pressure_group(&rep, r["idx"].as_u64().unwrap_or(0) as usize, r["seed"].as_u64().unwrap_or(1)) {
+            Some(why) => {
+                println!("replay: VIOLATED: {}", why);
+                println!("VIOLATION property=C12 replay=(replayed)");
+                1
+            }
+            None => {
+                println!("replay: property held on this case");
+                0
+            }
+        };
+    }
+    if r["engine"] == "cpus" {
+        let rep = Report::new("C12", "exploration", Tier::Quick, r["seed"].as_u64().unwrap_or(1));
+        return match cpu_count_group(&rep, r["idx"].as_u64().unwrap_or(0) as usize, r["seed"].as_u64().unwrap_or(1)) {
             Some(why) => {
                 println!("replay: VIOLATED: {}", why);
                 println!("VIOLATION property=C12 replay=(replayed)");
